@@ -10,7 +10,11 @@
 //!   mut_wal         > 16 KiB: all structural bytes + sampled body), each through the pipeline in
 //!                   the order recovery uses it (direct API: open -> validate -> read, and
 //!                   through RecoveryManager::recover / WalRotator::recover_all_entries):
-//!                   error (or, WAL, a shorter entry list) or identical projection; no panic
+//!                   error (or, WAL, a shorter entry list) or identical projection; no panic.
+//!                   Plus multi-byte damage, one run at a time: runs of >= 2 bytes overwritten
+//!                   with zeros / ones / noise - every pair of field boundaries, every aligned
+//!                   block of 8..4096 bytes, and free runs drawn from the case (same oracle; a
+//!                   genuine CRC-32 collision, recognised with the harness' own CRC, is not judged)
 //!   roundtrip_sizes serialized updates of exactly 64 KiB, 1 MiB-64..1 MiB+64, 2 MiB, 8 MiB (one
 //!                   string / a 64-field hash) between two small ones, through every encoding
 //!   mut_segment_compact  a damaged segment among 2-3, then the real Compactor::compact (a second
@@ -543,10 +547,45 @@ fn check_roundtrip(case: &RtCase, ctx: &mut CaseCtx<'_>) -> Result<(), String> {
 // mutation enumeration
 // ---------------------------------------------------------------------------------------
 
+/// what a damaged run of bytes reads as: an unwritten / lost block (zeros), erased flash (ones),
+/// garbage (deterministic pseudo-random bytes, a pure function of the seed byte and the offset)
+#[derive(Clone, Copy, Debug, PartialEq, Eq, PartialOrd, Ord)]
+enum Fill {
+    Zero,
+    Ones,
+    Noise(u8),
+}
+
+impl Fill {
+    fn byte(&self, i: usize) -> u8 {
+        match self {
+            Fill::Zero => 0x00,
+            Fill::Ones => 0xff,
+            Fill::Noise(s) => {
+                let mut x = ((*s as u64) << 40) ^ (i as u64) ^ 0x9E37_79B9_7F4A_7C15;
+                x = (x ^ (x >> 30)).wrapping_mul(0xBF58_476D_1CE4_E5B9);
+                x = (x ^ (x >> 27)).wrapping_mul(0x94D0_49BB_1331_11EB);
+                (x >> 33) as u8
+            }
+        }
+    }
+    fn name(&self) -> String {
+        match self {
+            Fill::Zero => "0x00".into(),
+            Fill::Ones => "0xFF".into(),
+            Fill::Noise(s) => format!("noise(seed {})", s),
+        }
+    }
+}
+
 #[derive(Clone, Copy, Debug)]
 enum Mutation {
     Trunc(usize),
     Byte { pos: usize, old: u8, new: u8 },
+    /// multi-byte damage: `len` (>= 2) consecutive bytes from `start` overwritten with `fill`;
+    /// `eff` = (first, last) byte that actually changed (bytes that already held the fill value
+    /// are not damage)
+    Run { start: usize, len: usize, fill: Fill, eff: (usize, usize) },
 }
 
 impl Mutation {
@@ -556,14 +595,306 @@ impl Mutation {
             Mutation::Byte { pos, old, new } => {
                 format!("byte {} of {} ({}): {:#04x} -> {:#04x}", pos, len, field, old, new)
             }
+            Mutation::Run { start, len: l, fill, eff } => format!(
+                "bytes {}..{} of {} overwritten with {} (bytes changed: {}..={}, {})",
+                start,
+                start + l,
+                len,
+                fill.name(),
+                eff.0,
+                eff.1,
+                field
+            ),
         }
     }
     fn pos(&self) -> usize {
         match self {
             Mutation::Trunc(l) => *l,
             Mutation::Byte { pos, .. } => *pos,
+            Mutation::Run { eff, .. } => eff.0,
         }
     }
+    fn is_run(&self) -> bool {
+        matches!(self, Mutation::Run { .. })
+    }
+    /// name of the damaged field(s): one field for a truncation / byte, `first..last` for a run
+    fn field(&self, n: usize, of: &dyn Fn(usize) -> &'static str) -> String {
+        match self {
+            Mutation::Run { eff, .. } => {
+                let (a, b) = (of(eff.0), of(eff.1.min(n.saturating_sub(1))));
+                if a == b {
+                    a.to_string()
+                } else {
+                    format!("{}..{}", a, b)
+                }
+            }
+            m => of(m.pos().min(n.saturating_sub(1))).to_string(),
+        }
+    }
+}
+
+// ---- multi-byte damage -------------------------------------------------------------------
+
+/// How much run damage a check enumerates per image.
+#[derive(Clone, Copy)]
+struct RunPlan {
+    /// fills applied to every field-boundary pair
+    pair_fills: &'static [u8],
+    /// at most this many field boundaries take part in the pairs (the image's first 10 and last 6
+    /// always do, the rest is thinned evenly)
+    max_bounds: usize,
+    /// smallest aligned block size
+    min_block: usize,
+    /// how many free runs are drawn from the case's samples
+    sampled: usize,
+}
+
+/// 0 = zeros, 1 = ones, 2 = noise
+const RUNS_FULL: RunPlan = RunPlan { pair_fills: &[0, 1, 2], max_bounds: 32, min_block: 8, sampled: 64 };
+const RUNS_LIGHT: RunPlan = RunPlan { pair_fills: &[0], max_bounds: 14, min_block: 32, sampled: 16 };
+
+#[derive(Default, Clone, Copy)]
+struct RunStats {
+    pairs: u64,
+    blocks: u64,
+    sampled: u64,
+    /// sampled (free) runs that start before `trailer` and end inside it
+    sampled_into_trailer: u64,
+    thinned: bool,
+}
+
+/// per-run-family counters for the evidence file
+static RUN_TOTALS: Mutex<BTreeMap<String, u64>> = Mutex::new(BTreeMap::new());
+
+fn add_run_total(key: &str, n: u64) {
+    if n > 0 {
+        *RUN_TOTALS.lock().unwrap().entry(key.to_string()).or_default() += n;
+    }
+}
+
+/// Runs of >= 2 bytes overwritten with zeros / ones / noise, one run at a time:
+///  * every pair of field boundaries (a run that covers whole fields: a checksum together with the
+///    length or count next to it, a record with the footer, the header tail with the first record …);
+///  * every aligned block of 8, 16, … 4096 bytes (a lost or unwritten sector);
+///  * free runs drawn from the case: short (2-8), medium (9-64), long, and runs that end in the
+///    last 32 bytes.
+/// `bounds` = the image's field boundaries; `trailer` = offset where the trailing structure starts.
+fn enumerate_runs(
+    img: &[u8],
+    bounds: &[usize],
+    trailer: usize,
+    samples: &[(u16, u8)],
+    plan: RunPlan,
+    f: &mut dyn FnMut(Mutation, &[u8]) -> Result<(), String>,
+) -> Result<(u64, RunStats), String> {
+    let n = img.len();
+    let mut stats = RunStats::default();
+    if n < 2 {
+        return Ok((0, stats));
+    }
+    let noise = Fill::Noise(samples.first().map(|s| s.1).unwrap_or(1));
+    let fill_of = |c: u8| match c % 3 {
+        0 => Fill::Zero,
+        1 => Fill::Ones,
+        _ => noise,
+    };
+    // (start, end, fill, family)
+    let mut runs: Vec<(usize, usize, Fill, u8)> = Vec::new();
+    // free runs first: a defect that needs multi-byte damage then tends to show early
+    for pair in samples.chunks(2).take(plan.sampled) {
+        if pair.len() < 2 {
+            break;
+        }
+        let ((f0, b0), (f1, b1)) = (pair[0], pair[1]);
+        let start = ((f0 as usize * n) >> 16).min(n - 2);
+        let room = n - start;
+        let end = match b0 % 4 {
+            0 => start + (2 + (b1 % 7) as usize).min(room),
+            1 => start + (9 + (b1 % 56) as usize).min(room),
+            2 => start + (2 + ((f1 as usize * (room - 1)) >> 16)).min(room),
+            _ => n.saturating_sub((b1 % 32) as usize).max(start + 2),
+        };
+        runs.push((start, end, fill_of(b0 >> 2), 2));
+        runs.push((start, end, Fill::Zero, 2));
+    }
+    // field-boundary pairs
+    let mut b: Vec<usize> = bounds.iter().copied().filter(|x| *x <= n).collect();
+    b.push(0);
+    b.push(n);
+    b.sort();
+    b.dedup();
+    if b.len() > plan.max_bounds {
+        stats.thinned = true;
+        let (head, tail) = (10.min(plan.max_bounds / 2), 6.min(plan.max_bounds / 3));
+        let mid = &b[head..b.len() - tail];
+        let want = plan.max_bounds - head - tail;
+        let mut keep: Vec<usize> = b[..head].to_vec();
+        for i in 0..want {
+            keep.push(mid[i * mid.len() / want]);
+        }
+        keep.extend_from_slice(&b[b.len() - tail..]);
+        keep.sort();
+        keep.dedup();
+        b = keep;
+    }
+    for i in 0..b.len() {
+        for j in i + 1..b.len() {
+            if b[j] - b[i] >= 2 {
+                for c in plan.pair_fills {
+                    runs.push((b[i], b[j], fill_of(*c), 0));
+                }
+            }
+        }
+    }
+    // aligned blocks
+    let mut bs = plan.min_block;
+    while bs <= 4096 {
+        if n / bs <= 64 {
+            let mut s = 0usize;
+            while s + 2 <= n {
+                let e = (s + bs).min(n);
+                runs.push((s, e, Fill::Zero, 1));
+                if plan.pair_fills.len() > 1 {
+                    runs.push((s, e, Fill::Ones, 1));
+                }
+                s += bs;
+            }
+        }
+        bs *= 2;
+    }
+    let mut seen: std::collections::BTreeSet<(usize, usize, Fill)> = Default::default();
+    let mut buf = img.to_vec();
+    let mut count = 0u64;
+    for (s, e, fill, family) in runs {
+        if e > n || e < s + 2 || !seen.insert((s, e, fill)) {
+            continue;
+        }
+        for i in s..e {
+            buf[i] = fill.byte(i - s);
+        }
+        if buf[s..e] != img[s..e] {
+            let first = (s..e).find(|i| buf[*i] != img[*i]).unwrap_or(s);
+            let last = (s..e).rev().find(|i| buf[*i] != img[*i]).unwrap_or(e - 1);
+            f(Mutation::Run { start: s, len: e - s, fill, eff: (first, last) }, &buf)?;
+            count += 1;
+            match family {
+                0 => stats.pairs += 1,
+                1 => stats.blocks += 1,
+                _ => {
+                    stats.sampled += 1;
+                    if s < trailer && e > trailer {
+                        stats.sampled_into_trailer += 1;
+                    }
+                }
+            }
+        }
+        buf[s..e].copy_from_slice(&img[s..e]);
+    }
+    Ok((count, stats))
+}
+
+fn label_runs(ctx: &mut CaseCtx<'_>, enc: &str, st: &RunStats) {
+    ctx.label(if st.thinned { "run_pairs_thinned" } else { "run_pairs_all_field_boundaries" });
+    if st.sampled_into_trailer > 0 {
+        ctx.label("run_sampled_reaches_into_trailer");
+    }
+    add_run_total(&format!("{}/field_boundary_pairs", enc), st.pairs);
+    add_run_total(&format!("{}/aligned_blocks", enc), st.blocks);
+    add_run_total(&format!("{}/sampled", enc), st.sampled);
+    add_run_total(&format!("{}/sampled_reaching_into_trailer", enc), st.sampled_into_trailer);
+}
+
+fn finish_runs(ctx: &mut CaseCtx<'_>, enc: &str, accepted_identical: u64, collisions: u64) {
+    if accepted_identical > 0 {
+        ctx.label("run_accepted_with_identical_data");
+    }
+    if collisions > 0 {
+        ctx.label("run_not_judged_crc32_collision");
+    }
+    add_run_total(&format!("{}/accepted_with_identical_data", enc), accepted_identical);
+    add_run_total(&format!("{}/not_judged_crc32_collision", enc), collisions);
+}
+
+/// field boundaries of a segment image
+fn seg_bounds(n: usize, rec_starts: &[usize]) -> Vec<usize> {
+    let mut b = vec![0, 4, 5, 6, 10, 18, 26, 30, 40];
+    for s in rec_starts {
+        b.extend_from_slice(&[*s, s + 4, s + 12]);
+    }
+    let foot = n.saturating_sub(24);
+    b.extend_from_slice(&[foot, foot + 4, foot + 12, foot + 20, n]);
+    b
+}
+
+fn ck_bounds(n: usize) -> Vec<usize> {
+    let foot = n.saturating_sub(16);
+    vec![0, 4, 5, 6, 8, 16, 24, 32, 44, 48, 52, 60, foot, foot + 4, foot + 12, n]
+}
+
+fn wal_bounds(n: usize, entry_starts: &[usize]) -> Vec<usize> {
+    let mut b = vec![0, 4, 5, 6, 8, 16];
+    for s in entry_starts {
+        b.extend_from_slice(&[*s, s + 4, s + 12, s + 16]);
+    }
+    b.push(n);
+    b
+}
+
+// ---- own CRC-32 (IEEE 802.3, reflected, as the formats specify): used only to recognise a
+// genuine checksum collision under multi-byte damage, never to decide what is correct data
+fn crc32(data: &[u8]) -> u32 {
+    let mut crc = 0xFFFF_FFFFu32;
+    for b in data {
+        crc ^= *b as u32;
+        for _ in 0..8 {
+            crc = if crc & 1 != 0 { (crc >> 1) ^ 0xEDB8_8320 } else { crc >> 1 };
+        }
+    }
+    !crc
+}
+
+fn le32(b: &[u8]) -> u32 {
+    u32::from_le_bytes([b[0], b[1], b[2], b[3]])
+}
+
+/// A damaged segment image (same length as the original) whose every *changed* checksummed
+/// region still matches its stored CRC-32 under the format's own definition (header: bytes 0..26
+/// -> 26..30; records: 40..len-24 -> len-24..len-20): a genuine CRC-32 collision, which no reader
+/// can detect. Only consulted for multi-byte damage that was accepted with different data.
+fn seg_crc_collision(orig: &[u8], m: &[u8]) -> bool {
+    let n = m.len();
+    if n != orig.len() || n < 64 {
+        return false;
+    }
+    let hdr_changed = orig[..30] != m[..30];
+    let data_changed = orig[40..n - 20] != m[40..n - 20];
+    let hdr_ok = crc32(&m[..26]) == le32(&m[26..30]);
+    let data_ok = crc32(&m[40..n - 24]) == le32(&m[n - 24..n - 20]);
+    (hdr_changed || data_changed) && (!hdr_changed || hdr_ok) && (!data_changed || data_ok)
+}
+
+/// Same for a checkpoint: header bytes 0..6 + 8..32 -> 44..48; data 52..52+data_len -> footer
+/// (data crc, data size, footer crc over both).
+fn ck_crc_collision(orig: &[u8], m: &[u8]) -> bool {
+    let n = m.len();
+    if n != orig.len() || n < 68 {
+        return false;
+    }
+    let hdr_changed = orig[..6] != m[..6] || orig[8..32] != m[8..32] || orig[44..48] != m[44..48];
+    let data_changed = orig[48..] != m[48..];
+    let mut h = m[..6].to_vec();
+    h.extend_from_slice(&m[8..32]);
+    let hdr_ok = crc32(&h) == le32(&m[44..48]);
+    let dl = le32(&m[48..52]) as usize;
+    let data_ok = match 52usize.checked_add(dl) {
+        Some(fs) if fs + 16 <= n => {
+            crc32(&m[52..fs]) == le32(&m[fs..fs + 4])
+                && u64::from_le_bytes([m[fs + 4], m[fs + 5], m[fs + 6], m[fs + 7], m[fs + 8], m[fs + 9], m[fs + 10], m[fs + 11]]) == dl as u64
+                && crc32(&m[fs..fs + 12]) == le32(&m[fs + 12..fs + 16])
+        }
+        _ => false,
+    };
+    (hdr_changed || data_changed) && (!hdr_changed || hdr_ok) && (!data_changed || data_ok)
 }
 
 /// Calls `f(mutation, mutated image)` for every mutation in scope; returns how many.
@@ -572,8 +903,9 @@ fn enumerate(
     structural: &dyn Fn(usize) -> bool,
     full: bool,
     samples: &[(u16, u8)],
+    runs: (&[usize], usize, RunPlan),
     f: &mut dyn FnMut(Mutation, &[u8]) -> Result<(), String>,
-) -> Result<u64, String> {
+) -> Result<(u64, RunStats), String> {
     let n = img.len();
     let mut count = 0u64;
     let sampled: Vec<(usize, u8)> = samples
@@ -603,6 +935,11 @@ fn enumerate(
             buf[*pos] = old;
         }
     }
+    // multi-byte damage (before the long single-byte enumeration: a defect that needs a run then
+    // shows after at most ~1000 evaluations, which keeps shrinking cheap)
+    let (bounds, trailer, plan) = runs;
+    let (c, stats) = enumerate_runs(img, bounds, trailer, samples, plan, f)?;
+    count += c;
     // truncations
     for l in 0..n {
         let take = full
@@ -637,7 +974,7 @@ fn enumerate(
         }
         buf[pos] = old;
     }
-    Ok(count)
+    Ok((count, stats))
 }
 
 /// per-field outcome counters for the evidence file: field -> (detected, invisible)
@@ -647,7 +984,12 @@ fn tally(local: &mut BTreeMap<String, (u64, u64)>, enc: &str, field: &str, m: &M
     let kind = match m {
         Mutation::Trunc(_) => "trunc",
         Mutation::Byte { .. } => "byte",
+        Mutation::Run { fill: Fill::Zero, .. } => "run_zeros",
+        Mutation::Run { fill: Fill::Ones, .. } => "run_ones",
+        Mutation::Run { fill: Fill::Noise(_), .. } => "run_noise",
     };
+    // runs: one "detected" row per fill, and a row per field span only where damage was accepted
+    let field = if m.is_run() && !invisible { "(any span)" } else { field };
     let e = local.entry(format!("{}/{}/{}", enc, field, kind)).or_default();
     if invisible {
         e.1 += 1;
@@ -777,9 +1119,13 @@ fn check_mut_segment(case: &MutCase, ctx: &mut CaseCtx<'_>) -> Result<(), String
     let full = n <= full_limit(ctx);
     ctx.label(if full { "enumerated_completely" } else { "structural_plus_sampled" });
     let structural = |p: usize| seg_field(p, n, &rec_starts) != "record.body";
+    let bounds = seg_bounds(n, &rec_starts);
     let mut local = BTreeMap::new();
-    let count = enumerate(&img, &structural, full, &case.samples, &mut |m, bytes| {
-        let field = seg_field(m.pos().min(n - 1), n, &rec_starts);
+    let mut collisions = 0u64;
+    let mut run_accepted = 0u64;
+    let (count, rstats) = enumerate(&img, &structural, full, &case.samples, (&bounds, n - 24, RUNS_FULL), &mut |m, bytes| {
+        let field = m.field(n, &|p| seg_field(p, n, &rec_starts));
+        let field = field.as_str();
         let mut invisible = false;
         for (name, out) in [
             ("SegmentReader open/validate/deltas", catch(|| seg_direct(bytes))),
@@ -792,6 +1138,10 @@ fn check_mut_segment(case: &MutCase, ctx: &mut CaseCtx<'_>) -> Result<(), String
                 Ok(Ok(ds)) => {
                     let got = projs(&ds);
                     if got != want {
+                        if m.is_run() && seg_crc_collision(&img, bytes) {
+                            collisions += 1;
+                            return Ok(());
+                        }
                         return Err(format!(
                             "segment, {}: {} accepted the damaged image and returned different data: {}",
                             m.describe(n, field),
@@ -803,10 +1153,15 @@ fn check_mut_segment(case: &MutCase, ctx: &mut CaseCtx<'_>) -> Result<(), String
                 }
             }
         }
+        if m.is_run() && invisible {
+            run_accepted += 1;
+        }
         tally(&mut local, "segment", field, &m, invisible);
         Ok(())
     })?;
     flush_tally(local);
+    label_runs(ctx, "segment", &rstats);
+    finish_runs(ctx, "segment", run_accepted, collisions);
     ctx.add_evaluations(count);
     ctx.nontrivial(&(0u8, &case.world));
     Ok(())
@@ -829,15 +1184,32 @@ fn check_mut_checkpoint(case: &MutCase, ctx: &mut CaseCtx<'_>) -> Result<(), Str
     let full = n <= full_limit(ctx);
     ctx.label(if full { "enumerated_completely" } else { "structural_plus_sampled" });
     let structural = |p: usize| ck_field(p, n) != "data.body";
+    let bounds = ck_bounds(n);
     let mut local = BTreeMap::new();
-    let count = enumerate(&img, &structural, full, &case.samples, &mut |m, bytes| {
-        let field = ck_field(m.pos().min(n - 1), n);
+    let mut collisions = 0u64;
+    let mut run_accepted = 0u64;
+    let (count, rstats) = enumerate(&img, &structural, full, &case.samples, (&bounds, n - 16, RUNS_FULL), &mut |m, bytes| {
+        let field = m.field(n, &|p| ck_field(p, n));
+        let field = field.as_str();
         let mut invisible = false;
+        // multi-byte damage that leaves every changed checksummed region consistent with its
+        // stored CRC-32 is a genuine collision: not judged
+        let mut collided = |m: &Mutation| -> bool {
+            if m.is_run() && ck_crc_collision(&img, bytes) {
+                collisions += 1;
+                true
+            } else {
+                false
+            }
+        };
         match catch(|| ck_direct(bytes)) {
             Err(p) => return Err(format!("checkpoint, {}: CheckpointReader open/validate/load -> {}", m.describe(n, field), p)),
             Ok(Err(_)) => {}
             Ok(Ok(got)) => {
                 if got != want {
+                    if collided(&m) {
+                        return Ok(());
+                    }
                     return Err(format!(
                         "checkpoint, {}: open/validate/load accepted the damaged image and returned different data (keys={} ts={} last_segment={}; written keys={} ts={} last_segment={}; state equal: {})",
                         m.describe(n, field), got.1, got.2, got.3, want.1, want.2, want.3, got.0 == want.0
@@ -851,6 +1223,9 @@ fn check_mut_checkpoint(case: &MutCase, ctx: &mut CaseCtx<'_>) -> Result<(), Str
             Ok(Err(_)) => {}
             Ok(Ok(got)) => {
                 if got != want_state {
+                    if collided(&m) {
+                        return Ok(());
+                    }
                     return Err(format!(
                         "checkpoint, {}: RecoveryManager::recover accepted the damaged image and returned a different state ({} keys, written {})",
                         m.describe(n, field), got.len(), want_state.len()
@@ -868,6 +1243,9 @@ fn check_mut_checkpoint(case: &MutCase, ctx: &mut CaseCtx<'_>) -> Result<(), Str
                 Ok(Err(_)) => {}
                 Ok(Ok(got)) => {
                     if got != want_state {
+                        if collided(&m) {
+                            return Ok(());
+                        }
                         return Err(format!(
                             "checkpoint, {}: {} accepted the damaged image and returned a different state ({} keys, written {})",
                             m.describe(n, field), name, got.len(), want_state.len()
@@ -877,10 +1255,15 @@ fn check_mut_checkpoint(case: &MutCase, ctx: &mut CaseCtx<'_>) -> Result<(), Str
                 }
             }
         }
+        if m.is_run() && invisible {
+            run_accepted += 1;
+        }
         tally(&mut local, "checkpoint", field, &m, invisible);
         Ok(())
     })?;
     flush_tally(local);
+    label_runs(ctx, "checkpoint", &rstats);
+    finish_runs(ctx, "checkpoint", run_accepted, collisions);
     ctx.add_evaluations(count);
     ctx.nontrivial(&(1u8, &case.world));
     Ok(())
@@ -918,10 +1301,24 @@ fn check_mut_wal(case: &MutCase, ctx: &mut CaseCtx<'_>) -> Result<(), String> {
         let full = n <= full_limit(ctx);
         ctx.label(if full { "enumerated_completely" } else { "structural_plus_sampled" });
         let structural = |p: usize| wal_field(p, &starts).0 != "entry.data";
+        let bounds = wal_bounds(n, &starts);
+        let trailer = starts.last().copied().unwrap_or(16);
         let mut tolerated = 0u64;
+        let mut tolerated_runs = 0u64;
+        let mut collisions = 0u64;
+        let mut run_accepted = 0u64;
         let strict_kf = !ctx.finding_open("KF-C10-01");
-        let count = enumerate(&img, &structural, full, &case.samples, &mut |m, bytes| {
-            let (field, entry_idx) = wal_field(m.pos().min(n - 1), &starts);
+        let counted = enumerate(&img, &structural, full, &case.samples, (&bounds, trailer, RUNS_FULL), &mut |m, bytes| {
+            let (first_field, entry_idx) = wal_field(m.pos().min(n - 1), &starts);
+            // a run confined to the stamp field of one entry is the same damage class as a byte there
+            let run_in_one_stamp = match m {
+                Mutation::Run { eff, .. } => {
+                    first_field == "entry.stamp" && wal_field(eff.1, &starts) == (first_field, entry_idx)
+                }
+                _ => false,
+            };
+            let field = m.field(n, &|p| wal_field(p, &starts).0);
+            let field = field.as_str();
             store.set_file_data(name, bytes.to_vec());
             let got = match catch(|| wal_read(&store)) {
                 Err(p) => return Err(format!("wal file {}, {}: recover_all_entries -> {}", name, m.describe(n, field), p)),
@@ -941,6 +1338,14 @@ fn check_mut_wal(case: &MutCase, ctx: &mut CaseCtx<'_>) -> Result<(), String> {
             for (j, (w, g)) in expect.zip(got.iter()).enumerate() {
                 let (ts, ts2) = (w.ts, g.timestamp);
                 if let Err(what) = same_data(g, w) {
+                    // Multi-byte damage only: bytes that were never written as an entry and that
+                    // match their own stored CRC-32 (own computation) are a genuine collision -
+                    // not judged. An intact entry returned at the wrong place is NOT excused.
+                    let novel = !files.iter().any(|(_, v)| v.iter().any(|e| e.data == g.data));
+                    if m.is_run() && novel && crc32(&g.data) == g.checksum {
+                        collisions += 1;
+                        return Ok(());
+                    }
                     return Err(format!(
                         "wal file {}, {}: recovered entry #{} is different data: written (stamp {}, {}), recovered (stamp {}, {})",
                         name, m.describe(n, field), j, ts, w.proj, ts2, what
@@ -950,9 +1355,12 @@ fn check_mut_wal(case: &MutCase, ctx: &mut CaseCtx<'_>) -> Result<(), String> {
                     // KF-C10-01: the 8-byte stamp of a WAL entry is outside the entry CRC.
                     // Matcher: a byte mutation inside the stamp of exactly this entry, data identical.
                     let this_entry = j >= before.len() && j < before.len() + k && entry_idx == Some(j - before.len());
-                    let is_kf = matches!(m, Mutation::Byte { .. }) && field == "entry.stamp" && this_entry;
+                    let is_kf = (matches!(m, Mutation::Byte { .. }) || run_in_one_stamp) && first_field == "entry.stamp" && this_entry;
                     if is_kf && !strict_kf {
                         tolerated += 1;
+                        if m.is_run() {
+                            tolerated_runs += 1;
+                        }
                     } else {
                         return Err(format!(
                             "wal file {}, {}: entry #{} recovered with stamp {} but was written with stamp {} (data identical)",
@@ -976,6 +1384,9 @@ fn check_mut_wal(case: &MutCase, ctx: &mut CaseCtx<'_>) -> Result<(), String> {
                     ))
                 }
             }
+            if m.is_run() && k == entries.len() {
+                run_accepted += 1;
+            }
             tally(&mut local, "wal", field, &m, k == entries.len());
             Ok(())
         });
@@ -984,7 +1395,13 @@ fn check_mut_wal(case: &MutCase, ctx: &mut CaseCtx<'_>) -> Result<(), String> {
             ctx.tolerate("KF-C10-01");
             ctx.label("kf_c10_01_stamp_mutations_tolerated");
         }
-        total += count?;
+        if tolerated_runs > 0 {
+            ctx.label("kf_c10_01_stamp_runs_tolerated");
+        }
+        let (count, rstats) = counted?;
+        label_runs(ctx, "wal", &rstats);
+        finish_runs(ctx, "wal", run_accepted, collisions);
+        total += count;
     }
     flush_tally(local);
     ctx.add_evaluations(total);
@@ -1340,10 +1757,14 @@ fn check_mut_segment_compact(case: &CompactCase, ctx: &mut CaseCtx<'_>) -> Resul
         off += 4 + l;
     }
     let structural = |p: usize| seg_field(p, n, &rec_starts) != "record.body";
+    let bounds = seg_bounds(n, &rec_starts);
     let mut local = BTreeMap::new();
     let mut laundered_ok = 0u64;
-    let count = enumerate(img, &structural, false, &case.samples, &mut |m, bytes| {
-        let field = seg_field(m.pos().min(n - 1), n, &rec_starts);
+    let mut collisions = 0u64;
+    let mut run_accepted = 0u64;
+    let (count, rstats) = enumerate(img, &structural, false, &case.samples, (&bounds, n - 24, RUNS_LIGHT), &mut |m, bytes| {
+        let field = m.field(n, &|p| seg_field(p, n, &rec_starts));
+        let field = field.as_str();
         match catch(|| run_once(bytes)) {
             Err(p) => Err(format!("segment {} of {}, {}: Compactor::compact + recover -> {}", which, k, m.describe(n, field), p)),
             Ok(Err(_)) => {
@@ -1352,6 +1773,10 @@ fn check_mut_segment_compact(case: &CompactCase, ctx: &mut CaseCtx<'_>) -> Resul
             }
             Ok(Ok((got, ran))) => {
                 if got != truth {
+                    if m.is_run() && seg_crc_collision(img, bytes) {
+                        collisions += 1;
+                        return Ok(());
+                    }
                     let mut what = Vec::new();
                     for key in truth.keys().chain(got.keys()) {
                         match (truth.get(key), got.get(key)) {
@@ -1370,6 +1795,9 @@ fn check_mut_segment_compact(case: &CompactCase, ctx: &mut CaseCtx<'_>) -> Resul
                     ));
                 }
                 laundered_ok += 1;
+                if m.is_run() {
+                    run_accepted += 1;
+                }
                 tally(&mut local, "segment+compaction", field, &m, true);
                 Ok(())
             }
@@ -1377,6 +1805,8 @@ fn check_mut_segment_compact(case: &CompactCase, ctx: &mut CaseCtx<'_>) -> Resul
     })?;
     flush_tally(local);
     let _ = laundered_ok;
+    label_runs(ctx, "segment+compaction", &rstats);
+    finish_runs(ctx, "segment+compaction", run_accepted, collisions);
     ctx.add_evaluations(count);
     ctx.label(if k == 2 { "segments_2" } else { "segments_3" });
     ctx.nontrivial(&(3u8, &case.world));
@@ -1470,15 +1900,17 @@ fn main() {
          payloads empty/1 byte/binary/control/23-24 bytes/4 KiB/64 KiB; keys and hash fields include empty, control characters, astral, 300-char; expiry incl. 0 and u64::MAX; rf. \
          roundtrip: each batch through WalEntry, WalRotator files, segment, checkpoint and the five gossip variants. \
          mut_*: per generated image EVERY truncation length and every byte x {8 single-bit flips, 0x00, 0xFF} (images > 3000 bytes, thorough tier > 16 KiB: all header/footer/length bytes + 192 sampled body bytes), \
-         each through the direct reader pipeline and through RecoveryManager::recover / WalRotator::recover_all_entries. \
-         roundtrip_sizes: serialized size of one update aimed exactly at 64 KiB, 1 MiB +- {0,1,16,17,64}, 2 MiB, 8 MiB. mut_segment_compact: structural + sampled mutations of one of 2-3 segments, then Compactor::compact, then recover. \
+         each through the direct reader pipeline and through RecoveryManager::recover / WalRotator::recover_all_entries; \
+         plus multi-byte damage, one run at a time: >= 2 consecutive bytes overwritten with 0x00 / 0xFF / pseudo-random bytes - every pair of field boundaries (<= 32 boundaries) x 3 fills, every aligned block of 8..4096 bytes x 2 fills, 64 free runs per image (short / medium / long / ending in the last 32 bytes). \
+         roundtrip_sizes: serialized size of one update aimed exactly at 64 KiB, 1 MiB +- {0,1,16,17,64}, 2 MiB, 8 MiB. mut_segment_compact: structural + sampled mutations (and zero-filled runs: boundary pairs, aligned blocks >= 32 bytes, 16 free runs) of one of 2-3 segments, then Compactor::compact, then recover. \
          non-trivial = (roundtrip) the batch shows >= 2 components beyond a plain live string (hash, tombstone, field tombstone, expiry, vector clock, rf, counter, set, non-UTF-8 payload); \
          (mut_*) always, because every length/checksum/count byte of the image is among the mutations; distinct by generated world (+ encoding)",
         &args,
     );
     s.assume("InMemoryObjectStore / InMemoryWalStore return exactly the bytes stored (the damage is what the check injects)");
     s.assume("the manifest is intact: only the segment / checkpoint / WAL image is damaged");
-    s.assume("single-fault model: one truncation or one byte altered per evaluation (bit flips, 0x00, 0xFF); CRC-32 collisions under multi-byte damage are out of scope");
+    s.assume("one fault per evaluation: one truncation, one altered byte (bit flips, 0x00, 0xFF), or one run of consecutive bytes overwritten with zeros / ones / noise; several separate faults in one image, inserted or appended bytes and crafted payloads are out of scope");
+    s.assume("a genuine CRC-32 collision under multi-byte damage (every changed checksummed region still matches its stored CRC-32 under the harness' own CRC; for the WAL: never-written bytes that match their own stored CRC) cannot be detected by any reader and is not judged; it is counted in note run_damage_totals (expected and so far always 0)");
     s.assume("body byte order inside an image follows std HashMap iteration (hash fields, checkpoint keys) and may differ between processes; every enumeration is complete for the image at hand");
 
     // ---- known finding shared with C10: the 8-byte stamp of a WAL entry is not covered by the entry CRC
@@ -1554,13 +1986,13 @@ fn main() {
     s.describe_check("roundtrip_sizes", "serialized update of exactly 64 KiB, 1 MiB-64..1 MiB+64, 2 MiB, 8 MiB (one string / a 64-field hash) between two small updates, through every encoding and a WAL file set");
     s.run_enumerated("roundtrip_sizes", size_cases().into_iter(), check_sizes);
 
-    s.describe_check("mut_segment", "all truncations + all byte mutations of one segment image; error or identical");
+    s.describe_check("mut_segment", "all truncations + all byte mutations + run damage (field-boundary pairs, aligned blocks, free runs x zeros/ones/noise) of one segment image; error or identical");
     s.run_cases("mut_segment", s.scale(800, 24_000), mut_case, check_mut_segment);
-    s.describe_check("mut_checkpoint", "all truncations + all byte mutations of one checkpoint image; error or identical");
+    s.describe_check("mut_checkpoint", "all truncations + all byte mutations + run damage of one checkpoint image; error or identical");
     s.run_cases("mut_checkpoint", s.scale(800, 24_000), mut_case, check_mut_checkpoint);
-    s.describe_check("mut_wal", "all truncations + all byte mutations of every file of a WAL file set; prefix of the written entries, identical data");
+    s.describe_check("mut_wal", "all truncations + all byte mutations + run damage of every file of a WAL file set; prefix of the written entries, identical data");
     s.run_cases("mut_wal", s.scale(800, 24_000), mut_case, check_mut_wal);
-    s.describe_check("mut_segment_compact", "structural + sampled mutations of one of 2-3 segments, then Compactor::compact, then RecoveryManager::recover: error, or the merge of what was written");
+    s.describe_check("mut_segment_compact", "structural + sampled mutations + zero-filled runs of one of 2-3 segments, then Compactor::compact, then RecoveryManager::recover: error, or the merge of what was written");
     s.run_cases("mut_segment_compact", s.scale(300, 12_000), compact_case, check_mut_segment_compact);
 
     let g = OUTCOMES.lock().unwrap();
@@ -1570,5 +2002,8 @@ fn main() {
         .collect();
     s.note("mutation_outcomes_by_field", json!({"columns": "encoding/field/kind -> [detected (error or shorter WAL list), accepted with identical data (for wal/entry.stamp: identical data, stamp altered = KF-C10-01)]", "table": table}));
     drop(g);
+    let rt = RUN_TOTALS.lock().unwrap();
+    s.note("run_damage_totals", json!({"what": "multi-byte damage (runs of >= 2 bytes overwritten with zeros / ones / noise), evaluations per encoding and family; not_judged_crc32_collision = accepted with different data while every changed checksummed region matches its stored CRC-32 under the harness' own CRC (expected 0)", "table": &*rt}));
+    drop(rt);
     s.finish();
 }
